@@ -4,7 +4,7 @@
 From Coq Require Import List ZArith Bool Sorted.
 From Coq.Strings Require Import Byte.
 Import ListNotations.
-From SV Require Import Text C12_Model C12_Lemmas.
+From SV Require Import Text C12_Model C12_Lemmas C12_Gap.
 Local Open Scope Z_scope.
 
 (* P0, every mode (need_start always/once/never x need_stop), every sequence, every rf and minlen -- no hypothesis:
@@ -75,6 +75,47 @@ Theorem C12_default_residues_div3 : forall s f a e,
 Proof. exact default_residues_div3. Qed.
 Print Assumptions C12_default_residues_div3.
 
+(* P2, every mode (need_start always/once/never x need_stop), both strands, every sequence and rf: the ORFs of the degapped
+   sequence are exactly the ORFs of the gapped sequence, in the same order with the same strand/rf, under
+   p -> number of residues before column p  (rbZ s p = Z.of_nat (rb s (Z.to_nat p)); minlen = 0 because minlen counts
+   columns; C12_minlen_filter reduces any minlen to this case) *)
+Theorem C12_gap_bijection : forall rf ns need_stop s,
+  exists l, find_orfs rf ns need_stop 0 s = ROk l /\
+            find_orfs rf ns need_stop 0 (degap s) =
+            ROk (map (fun o => mkorf (rbZ s (o_start o)) (rbZ s (o_stop o)) (o_plus o) (o_rf o)) l).
+Proof. exact gap_bijection. Qed.
+Print Assumptions C12_gap_bijection.
+
+(* minlen is a pure filter (on column length) of the result for minlen = 0, in every mode *)
+Theorem C12_minlen_filter : forall rf ns need_stop m s,
+  exists l, find_orfs rf ns need_stop 0 s = ROk l /\
+            find_orfs rf ns need_stop m s = ROk (filter (fun o => o_stop o - o_start o >=? m) l).
+Proof. exact minlen_filter. Qed.
+Print Assumptions C12_minlen_filter.
+
+(* the codon lists are first-principles objects. On a gap-free sequence the regex-style locator (leftmost, non-overlapping
+   finditer) reports exactly the in-frame occurrences of the start / stop codons on the strand that is read: position i
+   is reported iff i = frame offset (mod 3) and one of the words is a prefix of the strand at i (word_at = existsb prefix);
+   nothing is lost to the non-overlap rule because start (stop) codons cannot overlap one another *)
+Theorem C12_codons_gapfree_complete : forall s f, forallb (fun c => negb (is_gap c)) s = true -> forall i e,
+  (In (i, e) (hits START_WORDS s f) <->
+     (i < length s)%nat /\ e = (i + 3)%nat /\ Z.of_nat i mod 3 = frame_key f /\
+     word_at START_WORDS (skipn i (strand_str s f)) = true) /\
+  (In (i, e) (hits STOP_WORDS s f) <->
+     (i < length s)%nat /\ e = (i + 3)%nat /\ Z.of_nat i mod 3 = frame_key f /\
+     word_at STOP_WORDS (skipn i (strand_str s f)) = true).
+Proof. exact codons_gapfree_complete. Qed.
+Print Assumptions C12_codons_gapfree_complete.
+
+(* ... and on a gapped sequence the codon lists are those of the degapped sequence, position by position, under
+   p -> residues before column p of the strand (the strand of the degapped sequence is the degapped strand) *)
+Theorem C12_codon_lists_degap : forall s f,
+  frame_starts (degap s) f = map (rbZ (strand_str s f)) (frame_starts s f) /\
+  frame_stops (degap s) f = map (rbZ (strand_str s f)) (frame_stops s f) /\
+  strand_str (degap s) f = degap (strand_str s f).
+Proof. exact codon_lists_degap. Qed.
+Print Assumptions C12_codon_lists_degap.
+
 (* frames without any start codon contribute nothing, in the modes that need one *)
 Theorem C12_no_start_no_orf : forall ns need_stop minlen s f, ns <> NSNever -> frame_starts s f = [] ->
   frame_orfs ns need_stop minlen s f = ROk [].
@@ -115,5 +156,11 @@ Example C12_witness_modes :
   wf_C12 (RFtuple [-3; 0]) NSOnce true 0 (bs "A-TG-AAATA-A-CTTA"%bs) = true /\
   find_orfs (RFtuple [-3; 0]) NSOnce true 0 (bs "A-TG-AAATA-A-CTTA"%bs) = ROk [mkorf 0 12 true 0].
 Proof. exact (conj eq_refl (conj eq_refl (conj eq_refl eq_refl))). Qed.
+Example C12_witness_gapped :
+  find_orfs RFboth NSOnce false 0 (bs "-A-TGC--CCTAAT-TAGG-GCAT-"%bs) =
+    ROk [mkorf 1 13 true 0; mkorf 13 25 true 0; mkorf 13 24 false (-1); mkorf 0 13 false (-1)] /\
+  find_orfs RFboth NSOnce false 0 (degap (bs "-A-TGC--CCTAAT-TAGG-GCAT-"%bs)) =
+    ROk [mkorf 0 9 true 0; mkorf 9 18 true 0; mkorf 9 18 false (-1); mkorf 0 9 false (-1)].
+Proof. exact (conj eq_refl eq_refl). Qed.
 Example C12_witness_gapfree : forallb (fun c => negb (is_gap c)) (bs "AUGCCCTAAUUAGGGCAU"%bs) = true.
 Proof. exact eq_refl. Qed.
